@@ -109,9 +109,110 @@ async def _client_main(case: dict) -> dict:
     return verdict
 
 
+async def _udp_main(case: dict) -> dict:
+    """datagram server: one client whose datagrams keep arriving (its queue is never empty once a backlog has formed), stopped
+    by shutdown() or by a cancel scope around the handler's request loop"""
+    from easynetwork.protocol import DatagramProtocol
+    from easynetwork.serializers.line import StringLineSerializer
+    from easynetwork.servers.async_udp import AsyncUDPNetworkServer
+    from easynetwork.servers.handlers import AsyncDatagramRequestHandler
+
+    from ..memtransports import VerifBackend
+
+    backend = VerifBackend()
+    res: dict[str, Any] = {"handled": 0, "ended": [], "fed": 0, "scope": None}
+    PEER = ("127.0.0.1", 40001)
+
+    class Handler(AsyncDatagramRequestHandler):  # type: ignore[type-arg]
+        async def handle(self, client: Any) -> Any:
+            try:
+                with backend.open_cancel_scope() as scope:
+                    res["scope"] = scope
+                    first = True
+                    while True:
+                        if case.get("handler_style") == "poll-yield0" and not first:
+                            try:
+                                request = yield 0
+                            except TimeoutError:
+                                await asyncio.sleep(0)
+                                continue
+                        else:
+                            request = yield
+                        res["handled"] += 1
+                        if first:
+                            first = False
+                            for _ in range(case["warmup"] + 2):
+                                await asyncio.sleep(0)  # a slow first request: a backlog forms
+                        if case["echo"]:
+                            await client.send_packet(request)
+                res["ended"].append("scope-left")
+            except GeneratorExit:
+                res["ended"].append("GeneratorExit")
+                raise
+            except BaseException as exc:  # noqa: BLE001
+                res["ended"].append(type(exc).__name__)
+                raise
+
+    srv = AsyncUDPNetworkServer(None, 0, DatagramProtocol(StringLineSerializer()), Handler(), backend)
+    up = asyncio.Event()
+    serve_task = asyncio.create_task(srv.serve_forever(is_up_event=up))
+    await up.wait()
+    listener = backend.udp_listeners[-1]
+    stop_feeding = False
+
+    async def feeder() -> None:
+        while not stop_feeding:
+            for _ in range(case["chunk_frames"]):
+                try:
+                    listener.deliver(b"x" * 8, PEER)
+                except RuntimeError:
+                    return  # the server's task group is shutting down
+                res["fed"] += 1
+            await asyncio.sleep(0)
+
+    feed_task = asyncio.create_task(feeder())
+    ticks = 0
+    while res["handled"] < max(2, case["warmup"] // 4):
+        await asyncio.sleep(0)
+        ticks += 1
+        if serve_task.done() or ticks > 100_000:
+            raise HarnessError(f"udp warm-up did not complete: handled={res['handled']} {serve_task!r}")
+    for _ in range(case["extra_ticks"]):
+        await asyncio.sleep(0)
+    handled_at_call = res["handled"]
+    backlog = res["fed"] - handled_at_call
+    bound = 12  # the cancellation is delivered at the next checkpoint of the client task: a handful of datagrams at most
+    verdict: dict[str, Any] = {"handled_at_call": handled_at_call, "user_space": backlog * 8, "bound": bound}
+    op_task = None
+    if case["op"] == "udp-shutdown":
+        op_task = asyncio.create_task(srv.shutdown())
+    else:
+        res["scope"].cancel()
+    while not (op_task.done() if op_task is not None else bool(res["ended"])):
+        if res["handled"] - handled_at_call > bound + MARGIN:
+            verdict["stuck"] = True
+            break
+        await asyncio.sleep(0)
+    verdict["handled_after"] = res["handled"] - handled_at_call
+    stop_feeding = True
+    await asyncio.gather(feed_task, return_exceptions=True)
+    if not serve_task.done():
+        if op_task is not None:
+            await asyncio.gather(op_task, return_exceptions=True)
+        else:
+            await srv.shutdown()
+    await asyncio.gather(serve_task, return_exceptions=True)
+    await srv.server_close()
+    verdict["ended"] = list(res["ended"])
+    verdict["bad"] = 0
+    return verdict
+
+
 async def _main(case: dict) -> dict:
     if case["op"].startswith("client-"):
         return await _client_main(case)
+    if case["op"].startswith("udp-"):
+        return await _udp_main(case)
     from easynetwork.lowlevel.api_async.backend._asyncio.stream.socket import AsyncioTransportStreamSocketAdapter, StreamReaderBufferedProtocol
     from easynetwork.protocol import BufferedStreamProtocol, StreamProtocol
     from easynetwork.serializers.line import StringLineSerializer
@@ -279,6 +380,8 @@ def run(case: dict) -> Outcome:
             "scope-cancel": "the cancelled scope around the handler's request loop is not left",
             "client-task-cancel": "the cancelled task looping on endpoint.recv_packet() does not end",
             "client-scope-cancel": "the cancelled scope around a recv_packet() loop is not left",
+            "udp-shutdown": "shutdown() of the datagram server does not return",
+            "udp-scope-cancel": "the cancelled scope around the datagram handler's request loop is not left",
         }[case["op"]]
         raise Violation(
             "stop-request-starved",
@@ -289,7 +392,7 @@ def run(case: dict) -> Outcome:
         )
     classes = [f"op-{case['op']}", "buffered" if case["buffered"] else "copying", "echo" if case["echo"] else "silent", f"handler-{case.get('handler_style', 'plain')}"]
     classes.append("ended-" + (v["ended"][0] if v["ended"] else "none"))
-    ahead = v["user_space"] > 2 * case["max_recv_size"]
+    ahead = v["user_space"] > (0 if case["op"].startswith("udp-") else 2 * case["max_recv_size"])
     classes.append("peer-ahead" if ahead else "reader-keeps-up")
     return Outcome(nontrivial=ahead, classes=tuple(classes), note=f"handled after the request: {v['handled_after']} (bound {v['bound']})")
 
@@ -298,7 +401,7 @@ def run(case: dict) -> Outcome:
 def st_case(draw: st.DrawFn, tier: str) -> dict:
     frame = draw(st.sampled_from([64, 512, 4096]))
     return {
-        "op": draw(st.sampled_from(["shutdown", "shutdown", "cancel-serve", "scope-cancel", "client-task-cancel", "client-scope-cancel"])),
+        "op": draw(st.sampled_from(["shutdown", "shutdown", "cancel-serve", "scope-cancel", "client-task-cancel", "client-scope-cancel", "udp-shutdown", "udp-scope-cancel"])),
         "buffered": draw(st.booleans()),
         "echo": draw(st.booleans()),
         "frame": frame,
